@@ -68,13 +68,13 @@ NllDataOK(x) == x.nll \in {"cached_int", "cached_amp", "cfit_cached"} => x.prepr
 \* cached integrals are parameter-independent only if no line-shape parameter moves
 CachedIntOK(x) == x.nll = "cached_int" => ~x.float_shape
 
-\* lazily batched data: the batches are produced by tf.data from the
-\* preprocessor; ModelCachedInt / ModelCachedAmp / Model_cfit_cached key their
-\* caches by id() of eager batches and index them as dicts
-LazyOK(x) == x.lazy_call => x.nll \in {"default", "cfit"}
-
-Clauses(x) == <<PairOK(x.amp_model, x.preprocessor), Canonical(x), NllDataOK(x), CachedIntOK(x), LazyOK(x)>>
-ClauseNames == <<"pairing", "canonical", "nll_needs_angles", "cached_int_fixed_shape", "lazy_nll_model">>
+\* lazily batched data (LazyCall -> tf.data batches produced by the
+\* preprocessor) is accepted by every likelihood model through nll_grad_batch
+\* (probed); only the plain FCN.__call__ / Model.nll cannot take it, and the
+\* library itself avoids that call (ConfigLoader.fit: print_init_nll = False),
+\* so the NLL observer of every strategy is FCN.nll_grad
+Clauses(x) == <<PairOK(x.amp_model, x.preprocessor), Canonical(x), NllDataOK(x), CachedIntOK(x)>>
+ClauseNames == <<"pairing", "canonical", "nll_needs_angles", "cached_int_fixed_shape">>
 Applicable(x) == \A i \in 1..Len(Clauses(x)) : Clauses(x)[i]
 Reason(x) == IF Applicable(x) THEN "applicable"
              ELSE ClauseNames[CHOOSE i \in 1..Len(Clauses(x)) : ~Clauses(x)[i] /\ \A j \in 1..(i - 1) : Clauses(x)[j]]
@@ -90,18 +90,28 @@ Dev(x) == Cardinality({g \in 1..Len(Groups) : Deviates(x, g)})
 \* FCN.nll_grad; the cfit models are compared with each other
 Baseline(x) == IF x.nll = "cfit_cached" THEN "cfit" ELSE IF x.nll = "cfit" THEN "cfit" ELSE "default"
 
-\* covering selection: quick = one group at a time (XLA only on the default
-\* pairing and on the cached-amplitude pairing) plus three mixed strategies;
-\* thorough = every pair of groups (XLA: one group at a time and with every pairing)
+\* covering selection (what the harness executes; everything is enumerated):
+\* quick    = one group at a time (XLA without no_id_cached) plus three mixed
+\*            strategies;
+\* thorough = pairs of groups, where the expensive directions (XLA, lazily
+\*            batched data, cached likelihood models) are combined with three
+\*            representative pairings instead of all eight
+RepPairing(x) == x.amp_model \in {"cached_amp", "cached_shape", "p4_directly"}
 Quick(x) ==
     \/ Dev(x) <= 1 /\ (x.jit_compile => ~x.no_id_cached)
-    \/ /\ Dev(x) = 2 /\ x.amp_model = "cached_amp" /\ x.use_tf_function /\ ~x.no_id_cached
+    \/ /\ Dev(x) = 2 /\ x.amp_model = "cached_amp" /\ x.use_tf_function /\ ~x.no_id_cached /\ ~x.jit_compile
        /\ ~x.lazy_call /\ x.nll = "default" /\ ~x.float_shape
     \/ /\ Dev(x) = 2 /\ x.lazy_call /\ x.use_tf_function /\ x.no_id_cached /\ ~x.jit_compile
     \/ /\ Dev(x) = 2 /\ x.nll = "cached_amp" /\ x.float_shape
 Thorough(x) ==
-    \/ Dev(x) <= 2 /\ (x.jit_compile => Dev(x) <= 1 \/ (Deviates(x, 1) /\ ~x.no_id_cached))
     \/ Quick(x)
+    \/ Dev(x) <= 1
+    \/ /\ Dev(x) = 2
+       /\ (x.jit_compile => (~x.no_id_cached /\ Deviates(x, 1) /\ RepPairing(x)))
+       /\ ((x.lazy_call /\ Deviates(x, 1)) => RepPairing(x))
+       /\ ((x.nll # "default" /\ Deviates(x, 1)) =>
+              (RepPairing(x) \/ (x.amp_model = "base_factor" /\ x.preprocessor = "default")))
+       /\ ((x.lazy_call /\ x.nll # "default") => x.nll \in {"cached_int", "cached_amp"})
 
 --------------------------------------------------------------------------
 Init == s \in All
